@@ -191,6 +191,7 @@ type World struct {
 
 	log     []*workflow.Event
 	cursors map[string]int
+	rewinds map[string]int // adversarial rewinds of a name's committed position so far
 	// deliveries in flight: receiver name -> index delivered and not yet acked
 	opens, closes     map[string]int
 	sendOpen, sendCls int
@@ -221,7 +222,7 @@ type World struct {
 
 func NewWorld(name string) *World {
 	s := newSched()
-	w := &World{S: s, Clk: Clock{s}, Name: name, byID: map[string]*runRec{}, cursors: map[string]int{},
+	w := &World{S: s, Clk: Clock{s}, Name: name, byID: map[string]*runRec{}, cursors: map[string]int{}, rewinds: map[string]int{},
 		opens: map[string]int{}, closes: map[string]int{}}
 	w.Mon = newMonitors(w)
 	return w
@@ -507,12 +508,27 @@ type Sender struct {
 	topic string
 }
 
+// Receiver is a log-style receiver (as the Kafka and Reflex adapters are): within its lifetime every Recv returns the event
+// after the one returned before, whether or not that one was acknowledged; an acknowledgement commits the position after its
+// event; a new receiver of the name starts at the committed position. On code that ends every delivery with an
+// acknowledgement or by closing the receiver this is indistinguishable from a receiver that re-serves unacknowledged events
+// (the in-memory streamer); code that calls Recv again after an unacknowledged delivery loses the event here.
 type Receiver struct {
 	w           *World
 	topic, name string
 	fromLatest  bool
 	ctx         context.Context
 	closed      bool
+	pos         int // position within this receiver's lifetime; -1 = not yet received: start at the committed position
+	gen         int // w.rewinds[name] when pos was set: an adversarial rewind of the committed position resets live receivers
+}
+
+func (r *Receiver) start() int {
+	c := r.w.cursors[r.name]
+	if r.pos >= 0 && r.gen == r.w.rewinds[r.name] && r.pos > c {
+		return r.pos
+	}
+	return c
 }
 
 var _ workflow.EventStreamer = Streamer{}
@@ -552,7 +568,7 @@ func (st Streamer) NewReceiver(ctx context.Context, topic, name string, opts ...
 	}
 	var out *Receiver
 	err := w.call(ctx, "newrecv("+w.topicStr(topic)+")", func() (string, error) {
-		out = &Receiver{w: w, topic: topic, name: name, fromLatest: o.StreamFromLatest, ctx: ctx}
+		out = &Receiver{w: w, topic: topic, name: name, fromLatest: o.StreamFromLatest, ctx: ctx, pos: -1}
 		w.Mon.onNewReceiver(name, topic)
 		if o.StreamFromLatest {
 			if _, ok := w.cursors[name]; !ok {
@@ -592,10 +608,10 @@ func (s *Sender) Close() error {
 	return nil
 }
 
-// nextIndex: index of the next event of the receiver's topic at or after its cursor, or -1.
-func (w *World) nextIndex(topic, name string) int {
-	for i := w.cursors[name]; i < len(w.log); i++ {
-		if w.log[i].Headers[workflow.HeaderTopic] == topic {
+// nextIndex: index of the next event of the receiver's topic at or after its position, or -1.
+func (w *World) nextIndex(r *Receiver) int {
+	for i := r.start(); i < len(w.log); i++ {
+		if w.log[i].Headers[workflow.HeaderTopic] == r.topic {
 			return i
 		}
 	}
@@ -612,7 +628,7 @@ func (r *Receiver) Recv(ctx context.Context) (*workflow.Event, workflow.Ack, err
 	var ev *workflow.Event
 	idx := -1
 	err := w.call(ctx, "recv", func() (string, error) {
-		idx = w.nextIndex(r.topic, r.name)
+		idx = w.nextIndex(r)
 		if idx < 0 {
 			if l := w.S.leases[proc]; l != nil && l.ctx != nil && l.ctx.Err() != nil {
 				// released by a role loss, yet the context this Recv was called with is still live: the consumer does not receive under
@@ -632,6 +648,7 @@ func (r *Receiver) Recv(ctx context.Context) (*workflow.Event, workflow.Ack, err
 		}
 		e.Headers = h
 		ev = &e
+		r.pos, r.gen = idx+1, w.rewinds[r.name]
 		w.Mon.onRecv(r.name, idx, ev)
 		return "(" + evStr(w, idx, ev) + ")", nil
 	})
@@ -641,7 +658,7 @@ func (r *Receiver) Recv(ctx context.Context) (*workflow.Event, workflow.Ack, err
 	ack := func() error {
 		return w.call(ctx, fmt.Sprintf("ack(e%d)", idx), func() (string, error) {
 			w.Mon.onAck(r.name, idx)
-			w.cursors[r.name] = idx + 1
+			w.cursors[r.name] = idx + 1 // commits the position after this event (whatever was skipped before it is skipped for good)
 			return "", nil
 		})
 	}
